@@ -10,6 +10,9 @@ def cap(f):
         f()
     return b.getvalue()
 s7 = open(os.path.join(ROOT, "lib", "design_s7.md")).read()
+import subprocess
+tie = subprocess.run([sys.executable, os.path.join(ROOT, "lib", "tie_coverage.py"), "table"], stdout=subprocess.PIPE, universal_newlines=True).stdout
+s7 = s7.replace("@@TIECOV@@", tie)
 s7 = s7.replace("@@SEEDS@@", cap(T.seeds)).replace("@@PROPS@@", cap(T.props)).replace("@@FINDINGS@@", cap(T.findings)).replace("@@AXIOMS@@", cap(T.axioms))
 p = os.path.join(ROOT, "DESIGN.md"); s = open(p).read()
 m = "\n## 7. As built"
